@@ -60,6 +60,11 @@ CHECKS = {
    text="Generated-input search: ~170-234 templates per input kind (7 capture sites x 8 subjects incl. empty matches, rewound and backtracked matches x 4 surroundings, fold_with callbacks, captures under lookahead) x every string over {a,b,c} up to length 5 (quick) / 7 (thorough) for &str, &[char], Stream, slice.map, Stream.map and IterInput with generated gapped token spans and eoi spans, the same templates over {a,e-acute,U+1D11E} for multi-byte text, plus 400k / 5M random C01/C02-class grammars with every node wrapped in a span capture; every span must equal the extent the reference says the node consumed (empty matches: an empty span between the neighbouring tokens), be well-formed and nested, and every slice must be the caller's memory at input[span]. Exploration within these bounds.",
    note="Trusted: the reference's consumed extents; the span conversion tables (byte offsets / indices / token spans). F7 (empty-match spans of Input::map / IterInput) was found by this check and fixed in /repo (bf56838). Pratt fold-callback spans: C09's module.",
    design="DESIGN.md section 4, C07"),
+ "C11": dict(
+   technique="property-based metamorphic testing: the same generated grammar with and without memoized() at a random subset of nodes must give identical results (differential on output and full error lists, parse and check); statically typed probes for parser-address aliasing; left-recursive grammar families run in a resource-limited child process (termination + ParseResult contract); exhaustive templates x short strings + proptest-driven random tier",
+   text="Generated-input search: 16 templates (failing memoized parsers next to alternatives, the same memoized parser retried at one position, nested / adjacent placements, inside repetitions, lookahead, with emissions, try_map, custom) x every string over {a,b,c} up to length 6 (quick) / 8 (thorough); 5 statically typed inline templates (3 aliasing probes, 2 controls) x all strings up to 4 / 6; 150k / 3M random C01/C02-class grammars (with recursion, validate in half) with memoized() at random nodes incl. directly nested; memo(g) and g must agree on has_output, output and every error. Left recursion: 4 grammars (direct with two memo placements, expr op expr, indirect) x all strings over {x,y,+,z} up to length 6 / 7 + 2k / 40k random ones up to length 200 in a child process (4 GiB address-space limit, 120 s watchdog): every parse and check must return and obey the ParseResult contract. Exploration within these bounds.",
+   note="Trusted: nothing but the plain grammar as the model. `found` is not compared in grammars containing `not` (pinned, merge-order dependent). Known finding KF-a (memo key = position + parser address aliases for a wrapper and its first field and for distinct zero-sized parsers) is listed per static template in known_findings.json. F3 was found by this check and fixed in /repo (b359b1f).",
+   design="DESIGN.md section 4, C11"),
 }
 
 NOT_YET = {}
